@@ -314,6 +314,35 @@ Section Order.
       + constructor; [|constructor]. cbn [Q]. intros q Pq. now apply root_par in Pq.
       + intros x [].
   Qed.
+
+  (* the same over runs in which updates are applied between the ticks that change no started flag, keep the node table's
+     length and leave the interrupt map alone or add fresh generators [FVisit r] of parentless roots r (cancel / force
+     requests; injected snippets) *)
+  Theorem order_always_upd (upd : Type) (apply : S -> upd -> S) :
+    (forall s u m, started (st (apply s u) m) = started (st s m)) ->
+    (forall s u, length (nodes (apply s u)) = length (nodes s)) ->
+    (forall s u x, In x (ints (apply s u)) -> In x (ints s) \/ exists r, n_parent (nd p r) = None /\ snd (snd x) = [FVisit r]) ->
+    forall ts, Forall T (gstates p upd apply [FVisit 0] (init p) 0 ts).
+  Proof.
+    intros Es El Ei ts. apply (grun_G p Q T R R_refl R_trans Q_stable step_G).
+    - intros s n. apply same_R; [apply l_set_ns|apply started_fail].
+    - intros s n. apply same_T; [apply l_set_ns|apply started_fail].
+    - intros s i sr. now apply same_R.
+    - intros s i sr. now apply same_T.
+    - intros s n. apply same_R; [apply l_mark_completed|apply started_cmd].
+    - intros s n. apply same_T; [apply l_mark_completed|apply started_cmd].
+    - intros s. now apply same_R.
+    - intros s. now apply same_T.
+    - intros s u. apply same_R; [apply El|apply Es].
+    - intros s u. apply same_T; [apply El|apply Es].
+    - intros s u _ O x Hx. destruct (Ei s u x Hx) as [Hin|[r [Pr Ex]]].
+      + eapply Forall_impl; [|exact (O x Hin)]. intros a. apply Q_stable. apply same_R; [apply El|apply Es].
+      + rewrite Ex. constructor; [|constructor]. cbn [Q]. intros q Pq. unfold par in Pq. congruence.
+    - split; [|split].
+      + split; [unfold init; cbn [nodes]; apply repeat_length|]. intros c q _ _ _ Sc. now rewrite init_started in Sc.
+      + constructor; [|constructor]. cbn [Q]. intros q Pq. now apply root_par in Pq.
+      + intros x [].
+  Qed.
 End Order.
 
 (* the statement for the property file *)
